@@ -90,6 +90,19 @@ pub fn check_list(es: &[SEntry], c: u8, asyncw: bool, params: codec::Params, cro
     let d = to_lib(es);
     let want_raw = directory::encode(es, true);
 
+    // every third list: the same thread first serialises (and parses) a directory the library refuses - the list
+    // with one length set to 0 - so that whatever a refused call leaves behind meets the valid one
+    let after_refused = es.len() % 3 == 1;
+    if after_refused {
+        let mut bad = es.to_vec();
+        let k = bad.len() / 2;
+        bad[k].len = 0;
+        let bd = to_lib(&bad);
+        let _ = guarded("Directory::to_writer", || lib_write(&bd, c, asyncw))?;
+        let enc = codec::compress(c, &directory::encode(&bad, true), params);
+        let _ = guarded("Directory::from_reader", || lib_read(&enc, c, asyncw))?;
+    }
+
     // (a) library output, decompressed by the upstream crate, equals the independent encoder
     let out = guarded("Directory::to_writer", || lib_write(&d, c, asyncw))?
         .map_err(|e| Fail::new(format!("C05/to_writer-err/{kind}/{cname}"), format!("serialising a valid directory failed: {e}")))?;
@@ -141,6 +154,9 @@ pub fn check_list(es: &[SEntry], c: u8, asyncw: bool, params: codec::Params, cro
         _ => "codec-zstd",
     });
     m.labels.push(if asyncw { "writer-async" } else { "writer-sync" });
+    if after_refused {
+        m.labels.push("after-a-refused-write-on-the-same-thread");
+    }
     Ok(m)
 }
 
@@ -285,7 +301,8 @@ pub fn run(ctx: &Ctx) {
          run {0,1,2,2^32-1}, length {1,127,128,2^32-1}, offset {0,1,contiguous,contiguous-1,contiguous+1,2^62}) and of 3 entries over reduced (quick) / \
          full (thorough) sets, each through sync+async writers uncompressed and a strided sample through gzip/brotli/zstd; random: delta-recipe lists up to 10^4 / 10^5 \
          entries x codec x writer kind. Oracle: independent encoder/decoder (byte equality of the uncompressed form, entry equality after parsing the \
-         independent encoder's canonical and non-eliding output, round trips in all sync/async pairings). Non-trivial: >= 2 entries with an explicit offset \
+         independent encoder's canonical and non-eliding output, round trips in all sync/async pairings); every third list is preceded, on the same thread, by a \
+         serialise and a parse the library refuses (one length set to 0). Non-trivial: >= 2 entries with an explicit offset \
          after index 0, an elided offset, a leaf pointer or a >= 5-byte varint.",
     );
     ctx.rec.assume("independent codec = harness/src/spec/{varint,directory}.rs; decompression by flate2/brotli/zstd called directly");
@@ -301,7 +318,7 @@ pub fn run(ctx: &Ctx) {
     let wide = vec![ListCase { ds: (0..70_000u32).map(|i| EDelta { gap: u64::from(i % 3 == 0), run: 1 + (i % 2), len: 1 + (i % 300), omode: [0u8, 0, 1][(i % 3) as usize], off: u64::from(i) * 1000 }).collect(), codec: 1 + (ctx.seed % 4) as u8, asyncw: ctx.seed % 2 == 1, params: codec::Params::default() }];
     crate::engine::run_list(ctx, "list-over-65536-entries", &wide, check_case);
     run_proptest(ctx, "random-big-lists", PtCfg { lanes: ctx.lanes, cases: ctx.tier.pick(2, 12), max_shrink: 64 }, || big_strategy(ctx.tier.pick(40_000, 100_000)), check_case);
-    for c in ["offset-elided", "offset-explicit-after-0", "offset-zero-after-0", "leaf-pointer", "varint>=5bytes", "ends-on-last-tile-id", "codec-brotli", "codec-gzip", "codec-zstd", "writer-async"] {
+    for c in ["offset-elided", "offset-explicit-after-0", "offset-zero-after-0", "leaf-pointer", "varint>=5bytes", "ends-on-last-tile-id", "after-a-refused-write-on-the-same-thread", "codec-brotli", "codec-gzip", "codec-zstd", "writer-async"] {
         ctx.rec.floor(c, 20);
     }
 }
